@@ -41,7 +41,27 @@ func (g *Gen) Case(i int) Case {
 		root, kind = g.s.Mutation, "mutation"
 	}
 	depth := 2 + r.Below(3)
-	body := b.selSet(root, depth, true)
+	body := ""
+	if g.profile == "sub" && g.s.Subscription != nil {
+		// a subscription selects exactly one root field
+		root, kind = g.s.Subscription, "subscription"
+		f := root.Fields[r.Below(len(root.Fields))]
+		for strings.HasPrefix(f.Name, "__") {
+			f = root.Fields[r.Below(len(root.Fields))]
+		}
+		alias := ""
+		if r.Below(4) == 0 {
+			alias = "ev: "
+		}
+		ft := g.s.Types[f.Type.Name()]
+		body = "{ " + alias + f.Name
+		if ft.Kind == ast.Object || ft.Kind == ast.Interface || ft.Kind == ast.Union {
+			body += " " + b.selSet(ft, depth, false)
+		}
+		body += " }"
+	} else {
+		body = b.selSet(root, depth, true)
+	}
 	var vars []string
 	vals := map[string]any{}
 	names := make([]string, 0, len(b.usedVar))
@@ -67,7 +87,7 @@ func (g *Gen) Case(i int) Case {
 	q := hdr + " " + body + "\n" + strings.Join(b.frags, "\n")
 	rates := Rates{Err: 60, Nil: 80, DirErr: 100, DirBlock: 100, MaxLen: 3, ElemNil: 100, ErrAndVal: 200}
 	switch g.profile {
-	case "c04":
+	case "c04", "sub":
 		rates.Panic = 40
 	case "c06":
 		rates.Delay, rates.MaxDelay = 400, 300
